@@ -755,6 +755,14 @@ func (c *Ctx) successSites(fn *ssa.Function) []ssa.Instruction {
 			if neverNilError(rv.Val) || onlyWhenNonNil(v, rv.At) {
 				continue
 			}
+			// `return cleanupAfter(…, err)`: a helper that hands back the error it was given
+			if cl, ok := v.(*ssa.Call); ok {
+				if pi, ok := errPassThrough(cl.Common().StaticCallee()); ok && pi < len(cl.Common().Args) {
+					if a := cl.Common().Args[pi]; neverNilError(a) || onlyWhenNonNil(strip(a), rv.At) {
+						continue
+					}
+				}
+			}
 			out = append(out, rv.At)
 		}
 	}
